@@ -28,7 +28,7 @@ contract(f"{VIC}.__post_init__", setup=setup_vic,
     ensures={"accepted_implies_domain": lambda c, q: c.dom})
 
 SC = "mdpax.core.solver.Solver._setup_config"
-def setup_cfg(route, double=True):
+def setup_cfg(route, double=True, stale=False):
     def setup(I):
         from contracts.spec_mdp import ProblemStub
         vimod = I.load_module("mdpax.solvers.value_iteration").globals
@@ -37,7 +37,9 @@ def setup_cfg(route, double=True):
         pcfg = Obj(pcfg_cls, dict(_target_="mdpax.problems.forest.Forest", S=z3.Int("S"), r1=4.0, r2=2.0, p=z3.Real("p")), label="problem_config")
         g, e = z3.Real("gamma"), z3.Real("epsilon")
         I.assume(z3.And(g >= 0, g <= 1, e > 0))
-        cfg = Obj(cfgcls, dict(_target_="t", problem=pcfg if route == "config_only" else None, gamma=g, epsilon=e, max_batch_size=z3.Int("mbs"), jax_double_precision=double,
+        # stale: the configuration object handed in already names ANOTHER problem (e.g. it was used for an earlier solver): the instance's own configuration must replace it
+        other = Obj(pcfg_cls, dict(_target_="mdpax.problems.forest.Forest", S=z3.Int("S_other"), r1=4.0, r2=2.0, p=z3.Real("p_other")), label="other_problem_config")
+        cfg = Obj(cfgcls, dict(_target_="t", problem=pcfg if route == "config_only" else (other if stale else None), gamma=g, epsilon=e, max_batch_size=z3.Int("mbs"), jax_double_precision=double,
                                verbose=2, checkpoint_dir=None, checkpoint_frequency=0, max_checkpoints=1, enable_async_checkpointing=True, convergence_test="span"), label="config")
         s = Obj(cls, {}, label="solver")
         P = ProblemStub(I); P.obj.attrs["config"] = pcfg
@@ -50,7 +52,8 @@ def setup_cfg(route, double=True):
         I.ghost["jax_enable_x64"] = "as-before"          # the process-global flag before this constructor (possibly switched on by an earlier solver)
         return Ctx(self=s, _args=args, cfg=cfg, pcfg=pcfg, route=route, P=P, calls=calls, I=I, double=double)
     return setup
-contract(SC, scenarios=[("instance.", setup_cfg("instance")), ("config_only.", setup_cfg("config_only")), ("instance_single_precision.", setup_cfg("instance", double=False))],
+contract(SC, scenarios=[("instance.", setup_cfg("instance")), ("config_only.", setup_cfg("config_only")), ("instance_single_precision.", setup_cfg("instance", double=False)),
+                        ("instance_with_config_naming_another_problem.", setup_cfg("instance", stale=True))],
     ensures={"problem_set": lambda c, q: z3.BoolVal(c.self.attrs.get("problem") is c.P.obj),
              "problem_config_captured": lambda c, q: z3.BoolVal(c.self.attrs["config"].attrs["problem"] is c.pcfg),
              "instantiated_from_embedded_config_iff_no_instance": lambda c, q: z3.BoolVal((c.calls == [c.pcfg]) if c.route == "config_only" else (c.calls == [])),
